@@ -185,46 +185,6 @@ pub fn c16_uri_suffix_n7() {
     uri_suffix::<7>()
 }
 
-// @h prop=C16 tier=thorough kind=check timeout=5400 mem=26 bound="uri::Path value <= 5 bytes x prefix ''" encodes="same as c16_path_suffix_rep2_n4"
-#[cfg_attr(kani, kani::proof)]
-#[cfg_attr(kani, kani::unwind(13))]
-#[cfg_attr(kani, kani::stub(std::vec::Vec::resize, crate::stubs::vec_resize))]
-#[cfg_attr(kani, kani::stub(smallvec::SmallVec::try_grow, crate::stubs::sv_try_grow))]
-#[cfg_attr(kani, kani::stub(smallvec::SmallVec::push, crate::stubs::sv_push))]
-pub fn c16_path_suffix_rep0_n5() {
-    path_suffix::<5, 0>()
-}
-
-// @h prop=C16 tier=thorough kind=check timeout=5400 mem=26 bound="uri::Path value <= 5 bytes x prefix '/'" encodes="same as c16_path_suffix_rep2_n4"
-#[cfg_attr(kani, kani::proof)]
-#[cfg_attr(kani, kani::unwind(13))]
-#[cfg_attr(kani, kani::stub(std::vec::Vec::resize, crate::stubs::vec_resize))]
-#[cfg_attr(kani, kani::stub(smallvec::SmallVec::try_grow, crate::stubs::sv_try_grow))]
-#[cfg_attr(kani, kani::stub(smallvec::SmallVec::push, crate::stubs::sv_push))]
-pub fn c16_path_suffix_rep1_n5() {
-    path_suffix::<5, 1>()
-}
-
-// @h prop=C16 tier=thorough kind=check timeout=5400 mem=26 bound="uri::Path value <= 5 bytes x prefix 'a'" encodes="same as c16_path_suffix_rep2_n4"
-#[cfg_attr(kani, kani::proof)]
-#[cfg_attr(kani, kani::unwind(13))]
-#[cfg_attr(kani, kani::stub(std::vec::Vec::resize, crate::stubs::vec_resize))]
-#[cfg_attr(kani, kani::stub(smallvec::SmallVec::try_grow, crate::stubs::sv_try_grow))]
-#[cfg_attr(kani, kani::stub(smallvec::SmallVec::push, crate::stubs::sv_push))]
-pub fn c16_path_suffix_rep2_n5() {
-    path_suffix::<5, 2>()
-}
-
-// @h prop=C16 tier=thorough kind=check timeout=5400 mem=26 bound="uri::Path value <= 5 bytes x prefix '/a'" encodes="same as c16_path_suffix_rep2_n4"
-#[cfg_attr(kani, kani::proof)]
-#[cfg_attr(kani, kani::unwind(13))]
-#[cfg_attr(kani, kani::stub(std::vec::Vec::resize, crate::stubs::vec_resize))]
-#[cfg_attr(kani, kani::stub(smallvec::SmallVec::try_grow, crate::stubs::sv_try_grow))]
-#[cfg_attr(kani, kani::stub(smallvec::SmallVec::push, crate::stubs::sv_push))]
-pub fn c16_path_suffix_rep3_n5() {
-    path_suffix::<5, 3>()
-}
-
 // @h prop=C16 tier=thorough kind=check timeout=5400 mem=26 bound="uri::Path value <= 5 bytes x prefix 'a/b'" encodes="same as c16_path_suffix_rep2_n4"
 #[cfg_attr(kani, kani::proof)]
 #[cfg_attr(kani, kani::unwind(13))]
@@ -233,34 +193,4 @@ pub fn c16_path_suffix_rep3_n5() {
 #[cfg_attr(kani, kani::stub(smallvec::SmallVec::push, crate::stubs::sv_push))]
 pub fn c16_path_suffix_rep4_n5() {
     path_suffix::<5, 4>()
-}
-
-// @h prop=C16 tier=thorough kind=check timeout=5400 mem=26 bound="uri::Path value <= 5 bytes x prefix '/a/..'" encodes="same as c16_path_suffix_rep2_n4"
-#[cfg_attr(kani, kani::proof)]
-#[cfg_attr(kani, kani::unwind(13))]
-#[cfg_attr(kani, kani::stub(std::vec::Vec::resize, crate::stubs::vec_resize))]
-#[cfg_attr(kani, kani::stub(smallvec::SmallVec::try_grow, crate::stubs::sv_try_grow))]
-#[cfg_attr(kani, kani::stub(smallvec::SmallVec::push, crate::stubs::sv_push))]
-pub fn c16_path_suffix_rep5_n5() {
-    path_suffix::<5, 5>()
-}
-
-// @h prop=C16 tier=thorough kind=check timeout=5400 mem=26 bound="uri::Path value <= 5 bytes x prefix '%61'" encodes="same as c16_path_suffix_rep2_n4"
-#[cfg_attr(kani, kani::proof)]
-#[cfg_attr(kani, kani::unwind(13))]
-#[cfg_attr(kani, kani::stub(std::vec::Vec::resize, crate::stubs::vec_resize))]
-#[cfg_attr(kani, kani::stub(smallvec::SmallVec::try_grow, crate::stubs::sv_try_grow))]
-#[cfg_attr(kani, kani::stub(smallvec::SmallVec::push, crate::stubs::sv_push))]
-pub fn c16_path_suffix_rep6_n5() {
-    path_suffix::<5, 6>()
-}
-
-// @h prop=C16 tier=thorough kind=check timeout=5400 mem=26 bound="uri::Path value <= 5 bytes x prefix '..'" encodes="same as c16_path_suffix_rep2_n4"
-#[cfg_attr(kani, kani::proof)]
-#[cfg_attr(kani, kani::unwind(13))]
-#[cfg_attr(kani, kani::stub(std::vec::Vec::resize, crate::stubs::vec_resize))]
-#[cfg_attr(kani, kani::stub(smallvec::SmallVec::try_grow, crate::stubs::sv_try_grow))]
-#[cfg_attr(kani, kani::stub(smallvec::SmallVec::push, crate::stubs::sv_push))]
-pub fn c16_path_suffix_rep7_n5() {
-    path_suffix::<5, 7>()
 }
